@@ -225,6 +225,17 @@ def r3(chk, prog):
     deleg = {c['id'] for c in f.calls() if callee_is(c, 'Handler::helpArgument')}
     bad = cfg.can_reach_exit(cfg.entry_pos(), lambda p, e: isinstance(e, int) and (e in sets or e in deleg))
     chk.check(not bad and bool(sets), 'R3', f.name, 'printing the help marks the usage as printed', f.loc())
+    # a path 'group/sub/arg' is resolved from the left: the text in front of the FIRST slash names the sub-group of this
+    # handler, the rest is handed on - a split at the last slash makes every path with two or more levels 'unknown'
+    hf = prog.one('celma::prog_args::Handler', 'helpArgument')
+    sl = [c for c in hf.calls() if c.get('k') == 'CXXMemberCallExpr' and
+          (c.get('callee') or '').split('::')[-1] in ('find', 'rfind', 'find_first_of', 'find_last_of') and
+          any(y.get('k') in ('StringLiteral', 'CharacterLiteral') and y.get('val') in ('/', 47) for y in walk(c))]
+    chk.require(sl, 'helpArgument: search for the path separator not found')
+    for c in sl:
+        nm = (c.get('callee') or '').split('::')[-1]
+        chk.check(nm in ('find', 'find_first_of'), 'R3', hf.name, 'a help path is split at its first separator', hf.loc(c),
+                  'uses %s()' % nm)
 
 
 def r5_visibility_arguments(chk, prog, rule='R5'):
